@@ -82,6 +82,13 @@ PROPS = {
         explanation="Theorem (every crash prefix and torn write of the modelled call sequence create-temp/write/chmod/fsync/close/rename, first store and overwrite, any un-synced prefix surviving): a later Retrieve of that identifier returns what it returned before the store or the complete new document, and other identifiers are unaffected; listing-level version free of codec assumptions; the in-place write of the unrepaired code is refuted in the same model. Tie (partial: real kernels may reorder more than the model): the real Store's syscalls observed by strace equal the model's call sequence; the Go-enumerated post-crash listings equal Coq's crash_states as sets and each is materialised and read by the real Retrieve in a fresh process; the real process is SIGKILLed at every file-system call index (strace fault injection).",
         assumptions=["crash model: sequential prefixes of the call sequence, torn writes, volatile un-fsynced data (any prefix), atomic rename; reordering beyond that is outside the model", "protobuf codec and entry naming as in C19"],
     ),
+    "C06": dict(
+        props_v="Props/C06.v",
+        corr_v=["Corr/CheckC06.v"],
+        n_quick=50, n_thorough=1500,
+        explanation="Theorems: the declaration the real writer emits for SPDX 2.3 and CycloneDX 1.3/1.4/1.5 JSON (table regenerated from the writer on every run) is detected as exactly that format; a format is reported only when the top-level declaration states its type and version, and the reported constant's Type/Version/Encoding accessors (generated from the code) agree with the declaration; error otherwise (exact characterisation); tag-value fall-back reports only for a line carrying both the tag and the version; totality; the stream is left at offset 0. Tie (partial: decoding bytes into the declaration is encoding/json's, layout independence is validated, not proved): SniffReader observed on writer output x formats x indentations x re-encodings, near-miss declarations, fragment texts and binary input; result and Seek offset compared with Model/Sniff.v.",
+        assumptions=["modelled: pkg/formats/sniffer.go decision logic and rewind (Model/Sniff.v); encoding/json decoding of the top-level object is an input of the model", "strings.EqualFold against the word cyclonedx is modelled by ASCII case folding (exact for this word)"],
+    ),
 }
 
 NOT_APPLICABLE = {}
